@@ -134,7 +134,7 @@ pub fn run_dec2(w: &[&str]) -> String {
     if w.len() != 2 { return "bad-op".into() }
     let pos = match w[0].parse::<usize>() { Ok(p) => p, Err(_) => return "bad-op".into() };
     let input = match unhex(w[1]) { Some(b) => b, None => return "bad-op".into() };
-    if pos > input.len() { return "bad-op".into() }
+    if pos > input.len() + 64 { return "bad-op".into() }      // a position beyond the end is legal (`set_position` does not check)
     fn drain<'a, 'b>(it: impl Iterator<Item = Result<minicbor::data::Token<'b>, minicbor::decode::Error>>) -> String {
         let mut items = Vec::new();
         let mut tail = " end".to_string();
@@ -150,7 +150,7 @@ pub fn run_dec2(w: &[&str]) -> String {
     let mut d = Decoder::new(&input);
     d.set_position(pos);
     let a = drain(d.tokens());
-    let b = drain(Tokenizer::new(&input[pos ..]));
+    let b = drain(Tokenizer::new(&input[pos.min(input.len()) ..]));
     let mut d2 = Decoder::new(&input);
     d2.set_position(pos);
     let c = drain(Tokenizer::from(d2));
